@@ -713,7 +713,11 @@ structure EcAnswers (tok : Token) (path : String) (slot h : Nat) (point params :
   point : ∀ i, tok i (.getAttr path slot h ["EC_POINT"]) = .attrs [.bytes point]
   params : ∀ i, tok i (.getAttr path slot h ["EC_PARAMS"]) = .attrs [.bytes params]
 
-theorem ec_run (tok : Token) (path : String) (slot h : Nat) (point params : Bytes)
+/-- **EC: the outcome of the conversion as a function of the token's answers** (point present, of a
+    length the DER header arithmetic admits): `ecDerive` (Lemmas/Hsm.lean) removes a DER OCTET
+    STRING header if present, demands 65 / 97 octets for P-256 / P-384 and answers the base64 of
+    what remains.  The five theorems below are its cases in the property's words. -/
+theorem derived_key_ec (tok : Token) (path : String) (slot h : Nat) (point params : Bytes)
     (ha : EcAnswers tok path slot h point params) (hlen : 2 ≤ point.length ∧ point.length < 258)
     (s : TokState) :
     p11ObjectToPublicKey path slot h tok s =
@@ -767,7 +771,7 @@ theorem derived_key_ec_wrapped (tok : Token) (path : String) (slot h : Nat) (xy 
     rw [this]
     simp
   refine ⟨?_, by simp; omega, hk'⟩
-  rw [ec_run tok path slot h _ params ha (by simp; omega) s,
+  rw [derived_key_ec tok path slot h _ params ha (by simp; omega) s,
     ecDerive_of_length _ params k hk (by rw [hun]; simp; omega), hun]
 
 /-- **EC, bare point** (`04 x y` of 65 / 97 octets, not of the wrapped form): the derived key text is
@@ -789,7 +793,7 @@ theorem derived_key_ec_bare (tok : Token) (path : String) (slot h : Nat) (point 
       · right; simpa using hk.symm
       · simp at hk
   have hun : ecUnwrap point = point := by unfold ecUnwrap; rw [if_neg hbare]
-  rw [ec_run tok path slot h _ params ha (by omega) s,
+  rw [derived_key_ec tok path slot h _ params ha (by omega) s,
     ecDerive_of_length _ params k hk (by rw [hun]; exact hl), hun]
 
 /-- **EC, unknown curve OID ⇒ runtime error** (no key text is made up). -/
@@ -798,7 +802,7 @@ theorem derived_key_ec_unknown_curve (tok : Token) (path : String) (slot h : Nat
     (ha : EcAnswers tok path slot h point params) (s : TokState) :
     p11ObjectToPublicKey path slot h tok s =
       (.error (.error .runtime), afterEcReads path slot h point params s) := by
-  rw [ec_run tok path slot h _ params ha hlen s]
+  rw [derived_key_ec tok path slot h _ params ha hlen s]
   unfold ecPointOctets at hk
   unfold ecDerive
   split at hk
@@ -816,7 +820,7 @@ theorem derived_key_ec_wrong_length (tok : Token) (path : String) (slot h : Nat)
     (ha : EcAnswers tok path slot h point params) (s : TokState) :
     p11ObjectToPublicKey path slot h tok s =
       (.error (.error .runtime), afterEcReads path slot h point params s) := by
-  rw [ec_run tok path slot h _ params ha hlen s]
+  rw [derived_key_ec tok path slot h _ params ha hlen s]
   unfold ecPointOctets at hk
   unfold ecDerive
   split at hk
